@@ -10,7 +10,13 @@ func catalogue(tier string) []cfg {
 	th := tier == "thorough"
 	var r []cfg
 	ns := []int{1, 2, 3, 4}
-	full := func(k cfg) cfg { k.mode, k.bound = mp.Full, 1; return k }
+	full := func(k cfg) cfg { // deviation bound over the non-free axes: 1; 2 in thorough up to 3 parties
+		k.mode, k.bound = mp.Full, 1
+		if th && k.n <= 3 {
+			k.bound = 2
+		}
+		return k
+	}
 	ld := func(k cfg, n, b int) cfg { k.n, k.mode, k.bound = n, mp.LeftDeep, b; return k }
 
 	// --- RLWE level: KeySwitch to a shared key / to the zero key, PublicKeySwitch -------------------------
